@@ -207,7 +207,8 @@ def check_stores(ctx, spec, fn, sname, binding, rule='L2'):
                     # a helper's own parameter: judged where the helper is inlined into the decoder
                     continue
                 inline_match = False
-                if via is not None and fx.body(via) is None and all(a[0] == 'agg' and a[2] is not None and not a[3] for a in alts(ft)):
+                if via is not None and fx.body(via) is None and all(a[0] == 'agg' and a[2] is not None and all(
+                        is_read_term(unwrap_value(pv)[0]) for _, pv in a[3]) for a in alts(ft)):
                     # the value decoder has been written inline: the variants are built under a `match` on the bound read
                     for sw in q.switches_on(cb, lambda d: True):
                         inner_, bad_ = unwrap_value(q.switch_cond(cb, sw))
